@@ -154,7 +154,7 @@ let handle (cmd : string) (args : sexp list) : string =
     st := init_state (num admin) (num ttl)
         (List.map (function L [u; p] -> (num u, num p) | s -> failwith ("bad user " ^ string_of_sexp s)) users);
     "ok"
-  | "req", [now; tok; req] ->
+  | ("req" | "reqx"), [now; tok; req] ->
     let now = num now in
     let tok = (match tok with
         | A "-" -> None
@@ -162,7 +162,8 @@ let handle (cmd : string) (args : sexp list) : string =
         | s -> failwith ("bad token " ^ string_of_sexp s)) in
     let (resp, s') = step !st now tok (request_of_sexp req) in
     st := s';
-    string_of_response resp ^ " | " ^ string_of_obs s' now
+    (* reqx: the harness could not observe the state after this request (it logged the observer out) *)
+    string_of_response resp ^ " | " ^ (if cmd = "reqx" then "-" else string_of_obs s' now)
   | "kinds", [] ->
     String.concat " " (List.map (fun (name, k) ->
         Printf.sprintf "(%s %s %s %s)" name
